@@ -1078,4 +1078,7 @@ def merge(cnd, a, b):
             else:
                 alts.append((g0, x))
         return mkmux(alts)
+    if type(a).__name__ in ("StrA", "StrS") or type(b).__name__ in ("StrA", "StrS"):
+        import strprof
+        return strprof.merge_str(cnd, a, b)
     raise Unsupported("cannot merge %r and %r" % (type(a).__name__, type(b).__name__))
